@@ -448,9 +448,18 @@ func c14FrameMap(r *core.Report) {
 	var appendNode *core.GNode
 	clear := map[*core.GNode]bool{}
 	var loop ast.Stmt
+	// the result list: what the function returns on success
+	resultObjs := map[types.Object]bool{}
+	for _, rn := range g.Returns() {
+		if res := returnResults(rn); len(res) >= 1 {
+			if o := core.ObjOf(info, res[0]); o != nil {
+				resultObjs[o] = true
+			}
+		}
+	}
 	for _, n := range stmtNodes(g) {
-		if as, ok := n.Ast.(*ast.AssignStmt); ok && len(as.Rhs) == 1 {
-			if c, ok := core.Unparen(as.Rhs[0]).(*ast.CallExpr); ok && core.BuiltinName(info, c) == "append" && strings.Contains(strings.ToLower(core.ExprStr(as.Lhs[0])), "transaction") {
+		if as, ok := n.Ast.(*ast.AssignStmt); ok && len(as.Rhs) == 1 && len(as.Lhs) == 1 {
+			if c, ok := core.Unparen(as.Rhs[0]).(*ast.CallExpr); ok && core.BuiltinName(info, c) == "append" && resultObjs[core.ObjOf(info, as.Lhs[0])] {
 				appendNode = n
 			}
 		}
